@@ -93,6 +93,10 @@ type sim struct {
 	nonTrivial   bool
 	sawRollover  bool
 	hung            bool
+	flushedInCommit bool
+	layerCache      map[string]bool // bucket path + key committed since the last flush
+	layerDisk       map[string]bool // ... flushed to leveldb
+	txPuts          []string
 	tracePoints     []simfs.IOPoint
 	fileBeforeTx    uint32
 	crashedInCommit bool
@@ -212,6 +216,14 @@ func (s *sim) noteFlush(duringCommit bool) {
 		return
 	}
 	s.lastFlush = fc
+	if s.layerDisk == nil {
+		s.layerDisk, s.layerCache = map[string]bool{}, map[string]bool{}
+	}
+	for k := range s.layerCache {
+		s.layerDisk[k] = true
+	}
+	s.layerCache = map[string]bool{}
+	s.flushedInCommit = duringCommit
 	n := s.model.Commits()
 	if duringCommit {
 		// the flush inside commit n wrote everything committed before it
@@ -599,6 +611,17 @@ func (s *sim) compareOp(o *txOp, tc *txCtx, m, r []string, lenient bool) bool {
 					"op %s during injected %s: real=%v model=%v", o, s.firedKind, r, m)
 				return false
 			}
+			if (o.kind == opForEach && s.pairInModelBucket(tc, o.path, r[i])) ||
+				(o.kind == opForEachBucket && s.pairInModelBucket(tc, o.path, r[i]+"nil")) {
+				// pairs hidden by the failed read were skipped; what is shown is genuine
+				s.r.Probe("iteration_silently_truncated_by_io_error")
+				continue
+			}
+			if o.kind == opPrune && i < len(m) && subsetList(r[i], m[i]) {
+				// the index walk inside PruneBlocks was cut short by the failed read
+				s.r.Probe("iteration_silently_truncated_by_io_error")
+				return false
+			}
 			if r[i] == "ok" && i == len(r)-1 && i < len(m) {
 				// an iteration cut short by the injected error that still
 				// reports success: every returned pair was right
@@ -643,10 +666,6 @@ func (s *sim) compareOp(o *txOp, tc *txCtx, m, r []string, lenient bool) bool {
 			return false
 		}
 	}
-	if s.nilValueInvolved(o) {
-		s.r.Violate(prop, "refinement", "nil-value-put-invisible", "op %s: real=%v model=%v (a key was Put with a nil value)", o, r, m)
-		panic(stopExec{}) // listed finding: the states have diverged for good
-	}
 	s.violate("refinement", "", "op %s: real=%v model=%v", o, r, m)
 	return true
 }
@@ -672,6 +691,23 @@ func (s *sim) pairInModelBucket(tc *txCtx, path []string, item string) bool {
 		return nil
 	})
 	return found
+}
+
+// subsetList: both are fmt.Sprint of []int; every element of a is in b.
+func subsetList(a, b string) bool {
+	if !strings.HasPrefix(a, "[") || !strings.HasPrefix(b, "[") {
+		return false
+	}
+	in := map[string]bool{}
+	for _, x := range strings.Fields(strings.Trim(b, "[]")) {
+		in[x] = true
+	}
+	for _, x := range strings.Fields(strings.Trim(a, "[]")) {
+		if !in[x] {
+			return false
+		}
+	}
+	return true
 }
 
 func at(l []string, i int) string {
@@ -763,28 +799,6 @@ func (s *sim) cursorDeviationKey(o *txOp, m, r []string) string {
 	return ""
 }
 
-// nilValueInvolved: the workload has put a nil value somewhere under the key or
-// bucket this operation looks at.
-func (s *sim) nilValueInvolved(o *txOp) bool {
-	switch o.kind {
-	case opGet, opForEach, opCursor:
-	default:
-		return false
-	}
-	for i := 0; i <= s.stepIdx && i < len(s.wl.steps); i++ {
-		st := s.wl.steps[i]
-		if st.kind != stTx {
-			continue
-		}
-		for _, p := range st.tx.ops {
-			if p.kind == opPut && p.val == nil && p.key != "" && strings.Join(p.path, "/") == strings.Join(o.path, "/") {
-				return true
-			}
-		}
-	}
-	return false
-}
-
 func (s *sim) violate(oracle, key, format string, args ...any) {
 	s.r.Violate(prop, oracle, key, format, args...)
 }
@@ -806,6 +820,12 @@ func (s *sim) runOps(rtx, mtx database.Tx, st *txStep) error {
 			continue // block-file layout is no longer predictable
 		}
 		s.opCount++
+		if o.kind == opPut && o.key != "" {
+			s.txPuts = append(s.txPuts, strings.Join(o.path, "/")+"|"+o.key)
+		}
+		if o.kind == opCursor && tc.writable {
+			s.probeLayers(o)
+		}
 		firedBefore := s.fired
 		m := s.applyOp(mtx, o, false)
 		r := s.applyOp(rtx, o, true)
@@ -838,6 +858,30 @@ func (s *sim) runOps(rtx, mtx database.Tx, st *txStep) error {
 		return errFn
 	}
 	return nil
+}
+
+// probeLayers fires the probe when the bucket a cursor walks has keys in all
+// three layers at once: pending in this transaction, committed but cached,
+// flushed to leveldb (an approximation: deletions are ignored).
+func (s *sim) probeLayers(o *txOp) {
+	pre := strings.Join(o.path, "/") + "|"
+	has := func(m map[string]bool) bool {
+		for k := range m {
+			if strings.HasPrefix(k, pre) {
+				return true
+			}
+		}
+		return false
+	}
+	pending := false
+	for _, k := range s.txPuts {
+		if strings.HasPrefix(k, pre) {
+			pending = true
+		}
+	}
+	if pending && has(s.layerCache) && has(s.layerDisk) {
+		s.r.Probe("cursor_over_pending_cached_disk")
+	}
 }
 
 func (s *sim) probeClosedTx(rtx, mtx database.Tx) {
@@ -894,6 +938,8 @@ func (s *sim) afterCommit() {
 func (s *sim) runTx(st *txStep) (commitAttempted bool, commitErr error) {
 	fileBefore, _ := s.model.WriteCursor()
 	s.fileBeforeTx = fileBefore
+	s.txPuts = s.txPuts[:0]
+	s.flushedInCommit = false
 	var lastR, lastM database.Tx
 	if st.managed {
 		var merr, inner error
@@ -1002,6 +1048,16 @@ func (s *sim) runTx(st *txStep) (commitAttempted bool, commitErr error) {
 		}
 	}
 	if commitAttempted && commitErr == nil {
+		if s.layerDisk == nil {
+			s.layerDisk, s.layerCache = map[string]bool{}, map[string]bool{}
+		}
+		for _, k := range s.txPuts {
+			if s.flushedInCommit {
+				s.layerDisk[k] = true // written straight to leveldb after the flush
+			} else {
+				s.layerCache[k] = true
+			}
+		}
 		s.commits++
 		s.nonTrivial = true
 		if f, _ := s.model.WriteCursor(); f != fileBefore {
